@@ -20,6 +20,7 @@ import (
 	"math/big"
 	"reflect"
 	"time"
+	"unsafe"
 
 	"github.com/google/uuid"
 	"github.com/modern-go/reflect2"
@@ -97,6 +98,9 @@ type Decoder struct {
 	granted int
 	// listGranted counts the bytes preallocated for slices on the strength of wire counts (see preallocList)
 	listGranted int
+	// growing holds the slices being read whose first allocation is shorter than their count
+	// (see preallocList and assignTo)
+	growing []unsafe.Pointer
 	// converted: see rememberConverted
 	converted map[convertedKey]interface{}
 	// recoded: see recode
@@ -297,6 +301,7 @@ func (dec *Decoder) Reset() *Decoder {
 	dec.listGranted = 0
 	dec.converted = nil
 	dec.recoded = nil
+	dec.growing = nil
 	return dec
 }
 
@@ -577,6 +582,15 @@ func (dec *Decoder) preallocList(count int, size uintptr) int {
 	}
 	dec.listGranted += count * int(size)
 	return count
+}
+
+func (dec *Decoder) isGrowing(slice unsafe.Pointer) bool {
+	for _, p := range dec.growing {
+		if p == slice {
+			return true
+		}
+	}
+	return false
 }
 
 // maxDepth bounds the nesting of lists, maps and objects in the input. Every level is a level
